@@ -120,6 +120,6 @@ theorem read_dToks_mixed (s : Spec.Script) (hf : FragScriptM s = true) (hr : Rea
     Spec.parseScript (dToks s) = some s := by
   obtain ⟨h1, _, _, h4⟩ := fragScriptM_spec s hf
   rw [dToks_eqg s h1 (fun h hh => (fragHM_spec s h (h4 h hh)).1)]
-  exact rp_script dLayout s (readOkB_spec s hr)
+  exact rp_scriptW dLayout s (readOkB_spec s hr)
 
 end Drx.Link
